@@ -152,6 +152,8 @@ type seqRun struct {
 	resynced                                                           int
 	evicted                                                            int
 	prevLive                                                           map[uint64]string
+	leftEarly                                                          map[uint64]bool // handle values that left the table although it was not full and nothing was unexported
+	curFH                                                              []byte          // handle used by the current operation
 	target                                                             string
 	nameInvalid                                                        bool
 	badName                                                            string
@@ -333,6 +335,11 @@ func (r *seqRun) backendMonitors(opName string, allowed map[string]bool) {
 				cause := "cause=other"
 				if r.loose && len(r.reissued) > 0 {
 					cause = "cause=handle-value-reissued"
+					if len(r.curFH) == 8 && r.leftEarly[binary.BigEndian.Uint64(r.curFH)] {
+						// the pinned tree re-issues a value only after an eviction round (table full) or
+						// ReleaseAll; this value was dropped - and handed to another path - without either
+						cause = "cause=handle-value-dropped-and-reissued-without-eviction"
+					}
 				}
 				r.vio("C06.served-against-other-path", cause, "%s used a handle issued for %v but the backend call %s(%q) went to another path (%s)", opName, keys(allowed), c.Op, p, cause)
 			} else if allowed != nil && !allowed[p] {
@@ -709,6 +716,7 @@ func (r *seqRun) step(i int, op Op) {
 	}
 	m := r.model
 	hr := r.h(op.H)
+	r.curFH = hr.fh
 	base := m.get(hr.path)
 	allowed := map[string]bool{hr.path: true}
 	if validName(op.Name) {
